@@ -628,6 +628,13 @@ Theorem C10_io_repetition_flat_t2_refuted :
 Proof. cbv zeta. destruct flat_witnesses as [A B]. split; [exact A|split; [exact B|exact flat_guard_example]]. Qed.
 Print Assumptions C10_io_repetition_flat_t2_refuted.
 
+(* the sufficient guard of C10_io_repetition_chains_aligned implies the exact one *)
+Theorem C10_aligned_implies_flat_guard :
+  forall H c pairs (xs ys : list atom),
+    aligned H c (VList (map VAtom xs)) (VList (map VAtom ys)) = true -> flat_guard H c pairs xs ys.
+Proof. exact aligned_flat_guard. Qed.
+Print Assumptions C10_aligned_implies_flat_guard.
+
 (* the guard sibinj as a condition on the INPUT: for every injective hasher with
    non-empty separator-free outputs (and, hypothesis-free, for the hasher of the
    correspondence) it is "items of one list that are ALIKE under the DeepHash
